@@ -9,8 +9,8 @@
 #include "vsched.h"
 
 // ---- scenario rows ---------------------------------------------------------------------------------
-enum { F_2BLK, F_3BLK, F_BADCHECK_LAST, F_BAD_FIRST, F_TRUNC, F_UNSIZED_MID, F_EMPTY_MID, F_BADHDR, F_BADINDEX, F_BCJ_BAD, F_2STREAMS, F_BIGBLK, F_BAD_MID3, F_N };
-static const char *FN[] = { "2blk", "3blk", "badcheck-last", "bad-first", "trunc-mid", "unsized-mid", "empty-mid", "bad-blockheader", "bad-index", "bcj-bad-payload", "2streams+pad", "big-40k", "bad-mid-of-3" };
+enum { F_2BLK, F_3BLK, F_BADCHECK_LAST, F_BAD_FIRST, F_TRUNC, F_UNSIZED_MID, F_EMPTY_MID, F_BADHDR, F_BADINDEX, F_BCJ_BAD, F_2STREAMS, F_BIGBLK, F_BAD_MID3, F_UNSUP_2ND, F_N };
+static const char *FN[] = { "2blk", "3blk", "badcheck-last", "bad-first", "trunc-mid", "unsized-mid", "empty-mid", "bad-blockheader", "bad-index", "bcj-bad-payload", "2streams+pad", "big-40k", "bad-mid-of-3", "unsupported-filter-2nd" };
 typedef struct { int file, threads, inchunk, outchunk, timeout; uint32_t flags; uint64_t mlt, mls; int raise, early, reinit, probes; int bp, bt, bs; int tier; } row;
 #define NOLIM UINT64_MAX
 // tier: 0 = quick+thorough, 1 = thorough only.  bp/bt/bs = preemption / timeout / spurious bounds at quick; thorough adds 1 to bp for 2-thread rows.
@@ -57,6 +57,9 @@ static const row ROWS[] = {
 	{ F_TRUNC,          2, 7,  0,  0, 0,                    NOLIM, NOLIM, 0,    -1,   0,     0,     1, 0, 0, 0 },
 	{ F_2BLK,           2, 7,  0,  0, 0,                    NOLIM, NOLIM, 0,    0,    -1,    0,     1, 0, 0, 0 },	// re-init after call k, every k
 	{ F_BAD_FIRST,      2, 7,  0,  0, 0,                    NOLIM, NOLIM, 0,    0,    -1,    0,     1, 0, 0, 0 },
+	{ F_UNSUP_2ND,      2, 0,  0,  0, 0,                    NOLIM, NOLIM, 0,    0,    0,     0,     2, 0, 0, 0 },	// later Block needs an unsupported filter: earlier output must still be delivered
+	{ F_UNSUP_2ND,      3, 0,  2,  0, 0,                    NOLIM, NOLIM, 0,    0,    0,     0,     1, 0, 0, 0 },
+	{ F_BADCHECK_LAST,  2, 0,  0,  0, 0,                    NOLIM, NOLIM, 0,    0,    -2,    0,     1, 0, 0, 0 },	// re-init (every k) where the FIRST session used IGNORE_CHECK|CONCATENATED|FAIL_FAST: flags must not stick
 	{ F_BIGBLK,         2, 0,  0,  0, 0,                    NOLIM, NOLIM, 0,    0,    0,     0,     1, 0, 0, 0 },
 	{ F_BIGBLK,         2, 4096, 8192, 0, 0,                NOLIM, NOLIM, 0,    0,    0,     1,     1, 0, 0, 1 },
 	{ F_3BLK,           2, 0,  0,  1, 0,                    NOLIM, NOLIM, 0,    0,    0,     0,     1, 2, 0, 1 },
@@ -93,6 +96,8 @@ static int build_file(int kind) {
 	case F_BADHDR: comp[lay.off[1] + 1] ^= 0x40; break;
 	case F_BADINDEX: comp[lay.index_off + 2] ^= 0x01; break;
 	case F_BCJ_BAD: comp[lay.off[0] + lay.hdr[0] + 4] ^= 0x10; break;
+	case F_UNSUP_2ND: { unsigned char *h = comp + lay.off[1]; size_t hs = lay.hdr[1]; int done = 0; for (size_t q = 2; q + 6 < hs && !done; q++) if (h[q] == 0x21 && h[q + 1] == 0x01) { h[q] = 0x03; h[q + 2] = 0x00; done = 1; }	/* LZMA2 -> lone Delta: decodable header, unusable chain */
+		if (!done) return -1; uint32_t c = lzma_crc32(h, hs - 4, 0); h[hs - 4] = c; h[hs - 3] = c >> 8; h[hs - 2] = c >> 16; h[hs - 1] = c >> 24; break; }
 	case F_2STREAMS: { size_t one = clen; memset(comp + clen, 0, 8); memcpy(comp + one + 8, comp, one); clen = 2 * one + 8; memcpy(plain + plen, plain, plen); plen *= 2; break; }
 	}
 	return 0;
@@ -127,17 +132,19 @@ static obs drive(lzma_stream *d, int mt) {
 	return o;
 }
 static obs st_obs, last; static int st_done; static unsigned char st_out[65536 + 4096];
+static uint32_t first_flags;
 static int mt_init(lzma_stream *d) {
-	lzma_mt dm = { .threads = R->threads, .memlimit_threading = R->mlt, .memlimit_stop = R->mls, .timeout = R->timeout, .flags = R->flags };
+	lzma_mt dm = { .threads = R->threads, .memlimit_threading = R->mlt, .memlimit_stop = R->mls, .timeout = R->timeout, .flags = R->flags | first_flags };
 	d->allocator = &ALLOC;
 	return lzma_stream_decoder_mt(d, &dm) == LZMA_OK;
 }
 static void body(void) {
 	lzma_stream d = LZMA_STREAM_INIT; atomic_store(&a_live, 0);
+	first_flags = (R->reinit == -2 && cur_reinit) ? (LZMA_IGNORE_CHECK | LZMA_CONCATENATED | LZMA_FAIL_FAST) : 0;
 	if (!mt_init(&d)) { last = (obs){ 98, 0, 0, 0, 0, 0, 0 }; return; }
 	last = drive(&d, 1);
 	if (last.r == 78) {	// re-initialise the same handle mid-decode and decode the file from the start
-		int save = cur_reinit; cur_reinit = 0;
+		int save = cur_reinit; cur_reinit = 0; first_flags = 0;
 		d.avail_in = 0; d.avail_out = 0;
 		if (!mt_init(&d)) last = (obs){ 98, 0, 0, 0, 0, 0, 0 }; else last = drive(&d, 1);
 		cur_reinit = save; }
